@@ -896,8 +896,13 @@ def cd5(F, R):
     chars = [(b, t) for b, t in writes if has_sub(t, as_char)]
     dots = [(b, t) for b, t in writes if '"."' in tstr(t)]
     R.require(len(chars) == 1 and len(dots) == 1 and len(writes) == 2, fn, "writes", "expected exactly two output sites in the byte loop (the '.' and the byte as a char), found %d" % len(writes), fn.loc(h))
-    not_space = lambda g: g.kind == "bool" and g.term[0] == "cmp" and g.term[1] == "Eq" and g.truth is False and has_sub(g.term[2], item("1")) and g.term[3][:2] == ("c", 0x20)
-    is_space = lambda g: g.kind == "bool" and g.term[0] == "cmp" and g.term[1] == "Eq" and g.truth is True and has_sub(g.term[2], item("1")) and g.term[3][:2] == ("c", 0x20)
+    from .ev import cmp_forms
+
+    def eq_form(g, k, const, truth):
+        """the edge is taken exactly when (item.k == const) has the given truth value, however the comparison is written"""
+        return any(op == "Eq" and t == truth and has_sub(a, item(k)) and strip_refs(b_)[:2] == ("c", const) for (op, a, b_, t) in cmp_forms(g))
+    not_space = lambda g: eq_form(g, "1", 0x20, False)
+    is_space = lambda g: eq_form(g, "1", 0x20, True)
     for b, t in chars:
         # printed iff != ' ' : guarded by the not-space edge, and from the loop body entry no *other* test lies between
         g = guarded(fn, b, not_space)[0]
@@ -905,7 +910,7 @@ def cd5(F, R):
         R.require(g and not others, fn, "printed-iff-not-space", "a name byte must be printed exactly when it is not 0x20; extra / different conditions: %s" % [repr(x[2])[:80] for x in others], fn.loc(b))
     for b, t in dots:
         g1 = guarded(fn, b, not_space)[0]
-        g2 = guarded(fn, b, lambda g: g.kind == "bool" and g.term[0] == "cmp" and g.term[1] == "Eq" and g.truth is True and has_sub(g.term[2], item("0")) and g.term[3][:2] == ("c", 8))[0]
+        g2 = guarded(fn, b, lambda g: eq_form(g, "0", 8, True))[0]
         R.require(g1 and g2 and all(cb in fn.reach_after(b, cut_blocks=[h]) for cb, _ in chars), fn, "dot-at-8", "the '.' must be written before the first printed extension byte (index 8) and nowhere else", fn.loc(b))
 
 
